@@ -5,7 +5,8 @@
    it is only the stated input assumption wf (with entity categories in force the identity has no
    attribute named ""). *)
 From Coq Require Import String List Bool.
-From Verif Require Import Base.Str C10.Model C10.Spec C10.Proofs.
+From Verif Require Import Base.Str C10.Model C10.Spec C10.Proofs Base.Py C10.Source.
+From VerifGen Require Import C10Src.
 Import ListNotations.
 
 (* released names are the user's names; every released value list is a sub-multiset of what the
@@ -88,3 +89,21 @@ Print Assumptions c10_spec_reflect.
 Theorem c10_lower_is_str_lower : forall s, C10.Model.lower s = Base.Str.lower s.
 Proof. exact lower_is_str_lower. Qed.
 Print Assumptions c10_lower_is_str_lower.
+
+(* tie to the source TEXT: Policy.get as translated from /repo's current source on this run
+   (coq/gen/C10Src.v, harness/py2coq.py) answers from the section the model's [applicable] selects
+   (requester > registration authority > "default" unless empty and "" exists > ""), for every compiled
+   policy, requester, registration authority, key and default; enc_sec is any dict encoding of sections that
+   is empty exactly for empty sections *)
+Theorem c10_source_policy_get :
+  forall (enc_sec : section -> list (String.string * pyval)),
+    (forall s, enc_sec s = nil <-> s_bare s = true) ->
+    forall (reginfo : pyval -> pyval) p store sp ra key dflt,
+      reginfo (PStr sp) = enc_ra ra ->
+      src_policy_get reginfo (enc_policy enc_sec p store) (PStr key) (PStr sp) dflt
+      = match applicable p sp (if store then ra else None) with
+        | Some s => sec_value enc_sec s key dflt
+        | None => dflt
+        end.
+Proof. exact src_policy_get_is_model. Qed.
+Print Assumptions c10_source_policy_get.
